@@ -68,6 +68,7 @@ def is_int_const(node):
 
 
 TYPE_NAMES = ("bool", "int", "float")
+FUNC_NAMES = ("sum", "len", "abs", "min", "max")
 
 
 class Translator:
@@ -96,11 +97,15 @@ class Translator:
                 return self.comp("CAll" if f.id == "all" else "CAny", g.generators, g.elt)
             # tuple(...) / list(...) consume the whole generator: a list comprehension
             return "(ECall %s %s)" % (cstr(f.id), lst([self.comp("CList", g.generators, g.elt)]))
-        suffix = "".join(",%s=" % k.arg for k in e.keywords)
+        # a builtin function passed by keyword (sorted(x, key=sum)) is part of the callee's name
+        fkw = [k for k in e.keywords if isinstance(k.value, ast.Name) and k.value.id in FUNC_NAMES
+               and k.value.id not in self.locals]
+        vkw = [k for k in e.keywords if k not in fkw]
+        suffix = "".join(",%s=%s" % (k.arg, k.value.id) for k in fkw) + "".join(",%s=" % k.arg for k in vkw)
         if isinstance(f, ast.Name) and f.id == "isinstance":
             args = []
         else:
-            args = [self.expr(a) for a in pos] + [self.expr(k.value) for k in e.keywords]
+            args = [self.expr(a) for a in pos] + [self.expr(k.value) for k in vkw]
         if isinstance(f, ast.Name):
             if f.id == "isinstance":
                 # isinstance(x, str|tuple|list): the class is part of the callee's name
@@ -124,12 +129,11 @@ class Translator:
         if g.ifs or g.is_async or not isinstance(g.target, ast.Name):
             raise Unsupported("comprehension form")
         if len(generators) > 1:
-            if kind == "CList":
-                raise Unsupported("list comprehension with several for clauses")
+            # [e for i in A for j in B] is the concatenation of [[e for j in B] for i in A]
             body = self.comp(kind, generators[1:], elt)
-        else:
-            body = self.expr(elt)
-        return "(EComp %s %s %s %s)" % (kind, cstr(g.target.id), self.expr(g.iter), body)
+            outer = "CConcat" if kind == "CList" else kind
+            return "(EComp %s %s %s %s)" % (outer, cstr(g.target.id), self.expr(g.iter), body)
+        return "(EComp %s %s %s %s)" % (kind, cstr(g.target.id), self.expr(g.iter), self.expr(elt))
 
     def expr(self, e):
         expr = self.expr
@@ -218,7 +222,19 @@ class Translator:
 
     def stmts(self, body):
         out = []
-        for s in body:
+        for pos_, s in enumerate(body):
+            if (isinstance(s, ast.Assign) and len(s.targets) == 1 and isinstance(s.targets[0], ast.Name)
+                    and isinstance(s.value, ast.GeneratorExp)):
+                # x = (generator): materialised as a list.  Equivalent only if the generator is consumed
+                # once, at once: x must occur exactly once in the function, in the next statement.
+                x = s.targets[0].id
+                uses = [n for n in ast.walk(self.function) if isinstance(n, ast.Name) and n.id == x
+                        and isinstance(n.ctx, ast.Load)]
+                nxt = body[pos_ + 1] if pos_ + 1 < len(body) else None
+                if len(uses) != 1 or nxt is None or uses[0] not in list(ast.walk(nxt)):
+                    raise Unsupported("generator %s not consumed exactly once by the next statement" % x)
+                out.append("SAssign %s %s" % (lst([cstr(x)]), self.comp("CList", s.value.generators, s.value.elt)))
+                continue
             if isinstance(s, ast.Expr) and isinstance(s.value, ast.Constant) and isinstance(s.value.value, str):
                 continue   # docstring / stray string
             if isinstance(s, ast.Assign):
@@ -411,6 +427,7 @@ def translate(path, names):
             if n.decorator_list:
                 raise Unsupported("decorated function " + n.name)
             params = [x.arg for x in a.args]
+            tr.function = n
             tr.locals = set(params) | {x.id for x in ast.walk(n) if isinstance(x, ast.Name) and isinstance(x.ctx, ast.Store)}
             body = tr.stmts(n.body)
             Fresh(tr).block([s for s in n.body], {}, frozenset())
